@@ -82,13 +82,16 @@ pub struct WorldExec {
 }
 
 /// the assets a script refers to: tokens `+T:id =T:id ?T:id !T:id ~T:id &T:id ^T:id @T:id:n`
-pub fn script_refs(text: Option<&[u8]>) -> std::collections::BTreeSet<(String, String)> {
+pub fn script_refs(text: Option<&[u8]>) -> std::collections::BTreeSet<(String, String)> { script_refs_of_kinds(text, "+=?!~&^@") }
+
+/// … restricted to tokens whose first character is in `kinds`
+pub fn script_refs_of_kinds(text: Option<&[u8]>, kinds: &str) -> std::collections::BTreeSet<(String, String)> {
     let mut out = std::collections::BTreeSet::new();
     let Some(t) = text.and_then(|b| std::str::from_utf8(b).ok()) else { return out };
     for tok in t.split_whitespace() {
         let mut ch = tok.chars();
         let Some(c) = ch.next() else { continue };
-        if !"+=?!~&^@".contains(c) { continue; }
+        if !kinds.contains(c) { continue; }
         if let Some((ty, id)) = ch.as_str().split_once(':') {
             let id = if c == '@' { id.rsplit_once(':').map(|(i, _)| i).unwrap_or(id) } else { id };
             out.insert((ty.to_string(), id.to_string()));
@@ -338,6 +341,13 @@ impl WorldExec {
                 let now = script_refs(self.script_bytes(&k.1).as_deref());
                 let old = match self.scripts_before.get(&k.1) { Some(b) => script_refs(b.as_deref()), None => now.clone() };
                 if now.difference(&old).any(|d| d != k && reloaded.contains(d)) && !self.unspecified { self.unspecified = true; self.unspecified_why = "rewired-onto-an-asset-changed-in-the-same-pass"; }
+            }
+            // an UNRECORDED look-up (`~` no_record, `&` helper thread, `^` catch_unwind(no_record)) of an asset that is reloaded in the
+            // same pass: the reading asset has no edge to it, so which of the two is reloaded first is the hash-set order
+            for k in &reloaded {
+                if !(k.0.starts_with('S') || k.0.starts_with('N') || k.0.starts_with('A')) { continue; }
+                let unrec = script_refs_of_kinds(self.script_bytes(&k.1).as_deref(), "~&^");
+                if unrec.iter().any(|d| d != k && reloaded.contains(d)) && !self.unspecified { self.unspecified = true; self.unspecified_why = "unrecorded-lookup-of-an-asset-reloaded-in-the-same-pass"; }
             }
             self.scripts_before.clear();
             return out;
